@@ -64,10 +64,8 @@ func main() {
 	}
 	checks := map[string]*Check{}
 	codes := map[string]int{}
-	starts := map[string]time.Time{}
 	for _, id := range ids {
 		checks[id] = newCheck(id)
-		starts[id] = time.Now()
 	}
 	for _, arch := range archs {
 		start := time.Now()
@@ -85,9 +83,11 @@ func main() {
 		for _, id := range ids {
 			c := checks[id]
 			c.beginArch(w.ArchName())
+			t0 := time.Now()
 			if code := analyseOne(w, c, *tier); code > codes[id] {
 				codes[id] = code
 			}
+			c.elapsed += time.Since(t0)
 		}
 		w = nil
 		runtime.GC()
@@ -96,7 +96,7 @@ func main() {
 	for _, id := range ids {
 		code := codes[id]
 		if code == 0 {
-			o := runOpts{verifDir: *verif, tier: *tier, target: *target, noEvid: *noEvid, start: starts[id],
+			o := runOpts{verifDir: *verif, tier: *tier, target: *target, noEvid: *noEvid, start: time.Now(),
 				cmd: fmt.Sprintf("./run.sh %s %s", id, *tier)}
 			code = checks[id].finish(o)
 		}
